@@ -55,7 +55,7 @@ def gen(rng, tier):
     quick = tier == "quick"
     maxlen = 3 if quick else 4
     k = 0
-    # 1. exhaustive, unique-name destination
+    # 1. exhaustive, unique-name destination (for length 3 in the quick tier: one batching each)
     for n in range(0, maxlen + 1):
         for evs in itertools.product(POOL, repeat=n):
             for hist in g.interleavings(SETUP_U, list(evs)):
@@ -63,7 +63,7 @@ def gen(rng, tier):
                 mode = "YL"[k % 2]
                 unc = ["3", "-", "13"][k % 3]
                 yield case("u1", 0, mode, unc, g.batch_singletons(hist, lambda i: (i + k) % 3 == 0))
-                if n:
+                if n and (n < 3 or not quick or k % 3 == 0):
                     yield case("u1", 0, "YL"[(k + 1) % 2], unc, g.batch_maximal(hist))
                     if k % 2:
                         yield case("u1", 0, mode, unc, g.batch_reply_first(hist))
@@ -78,7 +78,7 @@ def gen(rng, tier):
                     b = [g.batch_singletons(h), g.batch_maximal(h), g.batch_reply_first(h)][k % 3]
                     yield case("w", 0, "YL"[k % 2], "3", b)
     # 3. random
-    count = 10000 if quick else 120000
+    count = 6000 if quick else 120000
     for i in range(count):
         dest = "w" if rng.random() < 0.35 else "u1"
         mode = rng.choice("YL")
@@ -172,7 +172,20 @@ def search(rng, bad_cases):
             yield case(w[1], int(w[2]), w[3], w[4], g.batch_singletons(evs, lambda i: rng.random() < 0.5))
 
 
-ENABLED = False
+ENABLED = True
 LEVEL = "proof"
-LEVEL_TEXT = "pending"
-LEVEL_NOTE = "pending"
+LEVEL_TEXT = ("Theorems in coq/theories/Properties/C31.v about a Gallina mirror of PropertiesCache::{new,init,keep_updated,"
+              "update_cache}, Proxy::cached_property_raw / receive_property_changed and PropertyStream::poll_next, on top of the C32 "
+              "model (the update stream is a SignalStream; ordered_stream::Join transcribed line by line). For every bus history, "
+              "every position of the GetAll reply among the change signals and EVERY interleaving of socket reader, caching task and "
+              "consumer: nothing is cached before the snapshot; whenever the task has caught up each cached value equals the fold of "
+              "the received history (snapshot, then later changes / invalidations of the proxy's interface from the destination's "
+              "owner, uncached names excluded); uncached names never hold a value; other interfaces leave the cache untouched; a "
+              "silent property stream has reported the cached value. PARTIAL: C32's release_buffered class is inherited through the "
+              "PropertiesChanged stream (refuted witness, confirmed on the real code, known finding).")
+LEVEL_NOTE = ("Trusted: Coq kernel; the hand-written model, tied to the code by running the real Proxy with CacheProperties::Yes / "
+              "Lazily over a real bus connection against an in-process scripted bus on ~12k (quick) histories x batchings and comparing "
+              "readiness, cached_property_raw of four properties after every batch and PropertyStream items; the substrate contracts "
+              "in ASSUMPTIONS. Schedules exercised on the code are 'read a batch, run every task to quiescence, observe'; finer "
+              "interleavings are covered by the theorem only. PropertyChanged::get (a Get call for an invalidated value) and "
+              "get_property's fallback call are not modelled.")
